@@ -264,7 +264,7 @@ static void body()
     // invalid UTF-8 are covered by the random phase)
     S alpha = "abA,;";
     alpha.push_back('\0');
-    const size_t smax = vrt::thorough() ? 7 : 5, pmax = vrt::thorough() ? 3 : 2;
+    const size_t smax = vrt::thorough() ? 6 : 5, pmax = vrt::thorough() ? 3 : 2;
     const uint64_t ns = gen::count_strings(alpha.size(), smax), np = gen::count_strings(alpha.size(), pmax);
     vrt::note(sfmt("split exhaustive sweep: all subjects of length <= %zu x separators of length <= %zu over {a,b,A,',',';',NUL} x max_splits in {0,1,2,SIZE_MAX} x both case modes x every overload form", smax, pmax));
     static const size_t maxes[] = {0, 1, 2, SMAX};
@@ -284,7 +284,7 @@ static void body()
             vrt::sample("split_exhaustive", sfmt("subject=%s x all %llu separators x max in {0,1,2,SIZE_MAX} x {cs,ci}", show(s).c_str(), static_cast<unsigned long long>(np)));
     });
 
-    const size_t rsmax = vrt::thorough() ? 6 : 4, rpmax = 2;
+    const size_t rsmax = vrt::thorough() ? 5 : 4, rpmax = 2;
     const uint64_t rns = gen::count_strings(alpha.size(), rsmax), rnp = gen::count_strings(alpha.size(), rpmax);
     vrt::note(sfmt("replace exhaustive sweep: all subjects of length <= %zu x patterns of length <= %zu x 8 replacement shapes x both case modes", rsmax, rpmax));
     vrt::phase("replace_exhaustive", rns, [&](uint64_t i, Rng &) {
